@@ -8,6 +8,10 @@ Decided (structure of options.c):
       argument vectors, including options missing their value)
   N1  the letter cursor never passes the terminator of its argument (lone '-', last letter of a bundle)
   M5  argv compaction: writes argv[j] only with j <= i < argc and terminates the vector
+  M1w the AND-NOT that clears a boolean is taken at the width of its target (not a narrower unsigned complement)
+  M6  only the loop's cursors survive an iteration of the main loop (per-word flags and value pointers are re-established)
+  N2  a word removed from argv is not read again before the index moves on (typestate + GHOSTPOS feasibility in the callee)
+  B1  the argument-list handler writes only inside the list it allocated (CAP, strict)
 Not decided: final variable values, ordering, the word-count agreement of argument lists."""
 import re
 
